@@ -129,7 +129,7 @@ Proof.
   destruct (tr_is_zero (TR a b)); [discriminate|].
   assert (Hab : a <= b).
   { apply negb_false_iff in Ev. unfold tr_valid, tspan in Ev. simpl in Ev. apply Z.leb_le in Ev. lia. }
-  destruct (dom_delete_exact (index_doms d c) c a b c' Hw Hc Hab Eu) as [Hc'ok Hcont].
+  destruct (dom_delete_exact (index_doms d c) c a b c' Hw Hc Hab Eu) as (Hc'ok & Hcont & _).
   assert (Hstat : c_isidx c' = c_isidx c /\ c_index c' = c_index c) by (subst c'; split; reflexivity).
   destruct Hstat as [Hs1 Hs2].
   assert (Hidx : forall y x, alookup y d = Some x -> index_doms (aset k c' d) x = index_doms d x).
@@ -369,11 +369,11 @@ Proof.
 Qed.
 
 (* a channel holding a sample stamped in [a,b) "has data for" [a,b) *)
-Lemma has_data_of_sample G c a b ts s :
-  chan_ok G c -> a < b -> In (ts, s) (content G c) -> a <= ts < b ->
+Lemma has_data_of_point G c a b ts p :
+  chan_ok G c -> a < b -> In p (c_ptrs c) -> t_s (p_tr p) <= ts < t_e (p_tr p) -> a <= ts < b ->
   dom_has_data_for c (TR a b) = true.
 Proof.
-  intros Hok Hab Hin Hts. destruct (content_in_ptr G c ts s Hin) as (p & Hp & Hr).
+  intros Hok Hab Hp Hr Hts.
   assert (Hs : sorted_ptrs (c_ptrs c)) by apply Hok.
   pose proof (sdoms_doms c Hs) as Hsd.
   destruct (sorted_ptrs_index _ Hs) as [Hne Hord].
@@ -423,6 +423,27 @@ Proof.
       rewrite (di_reload_at (doms c) (TR 0 MAXTS) (j + 1) zero_dom (dom_of c q) (doms_znth c _ q Hq) ltac:(lia)).
       simpl d_tr. rewrite (Hbounds q Hqin). rewrite <- Hl. reflexivity.
     + destruct (Hrng q Hqin) as (_ & _ & C). rewrite overlaps_ne by lia. apply Z.ltb_lt. lia.
+Qed.
+
+Lemma has_data_of_sample G c a b ts s :
+  chan_ok G c -> a < b -> In (ts, s) (content G c) -> a <= ts < b ->
+  dom_has_data_for c (TR a b) = true.
+Proof.
+  intros Hok Hab Hin Hts. destruct (content_in_ptr G c ts s Hin) as (p & Hp & Hr).
+  eapply has_data_of_point; eauto.
+Qed.
+
+(* conversely: a channel that has no data for [a,b) has no domain overlapping it *)
+Lemma no_data_no_overlap G c a b p :
+  chan_ok G c -> a < b -> dom_has_data_for c (TR a b) = false -> In p (c_ptrs c) ->
+  t_e (p_tr p) <= a \/ b <= t_s (p_tr p).
+Proof.
+  intros Hok Hab Hno Hp.
+  destruct (Z_le_gt_dec (t_e (p_tr p)) a) as [H1|H1]; [left; exact H1|].
+  destruct (Z_le_gt_dec b (t_s (p_tr p))) as [H2|H2]; [right; exact H2|]. exfalso.
+  assert (Hne : t_s (p_tr p) < t_e (p_tr p)).
+  { pose proof (sorted_ptrs_nonempty _ (wf_sorted c (ok_wf G c Hok))) as Hn. rewrite Forall_forall in Hn. auto. }
+  pose proof (has_data_of_point G c a b (Z.max (t_s (p_tr p)) a) p Hok Hab Hp ltac:(lia) ltac:(lia)). congruence.
 Qed.
 
 (* a dependant with a sample in [a,b): the index channel's deletion is refused *)
